@@ -735,6 +735,10 @@ impl img::DiskImage for Imd {
                 warn!("skipping read-only `header`");
                 return Ok(())
             }
+            if meta::match_key(key_path,&[&imd,"comment"]) && val.contains('\u{1a}') {
+                error!("IMD comment cannot contain the terminator 0x1A");
+                return Err(Box::new(img::Error::MetadataMismatch));
+            }
             putString!(val,key_path,imd,self.comment);
         }
         error!("unresolved key path {:?}",key_path);
